@@ -90,9 +90,11 @@ claim("C12",
       "with its clone through Arc/Rc (reviewed exception: key bindings), that every process-global mutator API call is in a pre_exec "
       "callback, behind !is_subshell() or reviewed, that every subshell-like context runs its body on the clone, that a pipeline stage "
       "is given the invoking shell only on the single-command or lastpipe-last-stage edges (never with job control on), that errors raised in "
-      "a subshell stage are turned into its status, and that a job's result reaches its waiter only as an exit code.",
+      "a subshell stage are turned into its status, that a job's result reaches its waiter only as an exit code, and (grammar) that the "
+      "arithmetic command opens only at two adjacent `(` tokens — `( ( cmd ) )` being nested subshells (not so today: known finding, pinned "
+      "by a parser snapshot).",
       "Trusted: rustc MIR and fully-qualified type strings; external types are opaque except generic arguments. Known findings: umask, "
-      "ulimit. Not decided: that every piece of semantic state lives in Shell.",
+      "ulimit, `( ( cmd ) )`. Not decided: that every piece of semantic state lives in Shell.",
       ST + "aggregate-field provenance, type walk, who-may-call with dominating guards, forward taint", "DESIGN.md §3 C12")
 claim("C17",
       "Decides that every tokio::spawn in brush_core is registered as a job on all paths / joined in place / a reviewed detached spawn, "
